@@ -21,6 +21,13 @@ CLAIMS = {
             "QuotedTripleStore, and (taint) that union passes every identifier of the other database through the "
             "re-encoder into a clone of self's dictionary. Bijectivity itself follows by induction that is not mechanised.",
             "MIR writer-set, dominance/guard and taint rules"),
+    "C07": ("DESIGN.md §4 C07",
+            "Decides the interruption-safety clause for every interruption point at once: caches are filled only with "
+            "the completed result under the looked-up key, node allocation and unique-table registration form one "
+            "straight-line region without a fallible step (hash-consed: lookup first, id = pre-push length), every budgeted "
+            "twin calls the same manager operations and writes the same fields as its original, and no unbudgeted "
+            "mutating operation is reachable from a budgeted one. Exactness, canonicity and model counts are not decided.",
+            "MIR dominance/pairing, sibling (twin) skeleton comparison, call-graph closure"),
 }
 
 NA = {
